@@ -10,7 +10,8 @@ extern "C" {
 // short_name(second[0..len)).  returns 0 accepted, 1 parser_error, 2 other; *letter_after = resulting short name's first byte (0 = none)
 int k_short_name(unsigned kind, int has_first, char first, const char* second, unsigned len, int* letter_after);
 // pre-populated parser: option A in the default group, multi-option B in group "g", toggle C in the default group (1-byte names a,b,c);
-// then declare (kind, in_group_g, name n).  returns 0 new object, 1 parser_error, 2 other exception, 3 the identical existing object
+// then declare (kind, in_group_g, name n).  returns 0 new object, 1 parser_error (also when repeated), 2 other exception,
+// 3 the identical existing object, 4 rejected first but accepted when the same declaration is repeated
 // `moved`: 0 = plain, 1 = the parser object is moved (move-constructed) before the extra declaration, 2 = moved and the source destroyed
 int k_redeclare(char a, char b, char c, unsigned kind, unsigned in_g, char n, unsigned moved, unsigned* n_decls_after);
 // three declarations with optional letters; parse an empty command line: 0 parses, 1 parser_error (developer error), 2 other
@@ -90,7 +91,22 @@ int k_redeclare(char a, char b, char c, unsigned kind, unsigned in_g, char n, un
         }
         catch (parser_error&)
         {
-            return 1;
+            // the caller catches the developer error and goes on: the same declaration must be rejected again, and the
+            // rejected name must not have been left behind (it would answer to its own letter on the command line)
+            try
+            {
+                if (kind == 0)
+                    g.option(std::string(1, n));
+                else if (kind == 1)
+                    g.multi_option(std::string(1, n));
+                else
+                    g.toggle(std::string(1, n));
+                return 4; // accepted on the second attempt
+            }
+            catch (parser_error&)
+            {
+                return 1;
+            }
         }
         if (got == pa || got == pb || got == pc)
             return 3;
